@@ -78,8 +78,43 @@ fn emit(b: &mut Vec<Stmt>, ty_name: &str, val: E) {
     b.push(st(println(add(s("S:"), E::Inherent(ty_name.into(), "to_string".into(), CallForm::Dot, vec![x], vec![])))));
 }
 
+/// a derived struct that shares its name with a variant of an enum of the package (`struct Circle`,
+/// `enum Shape { Circle(Circle), .. }`): (name, text, expected output)
+fn shared_name_programs() -> Vec<(String, String, String)> {
+    let mut out = Vec::new();
+    for derive in ["ToString", "ToJson"] {
+        for (fields_n, fields, lit, shown, json) in [
+            (1, "r: int32", "Circle { r: 2 }", "Circle { r: 2 }", "{\"r\":2}"),
+            (2, "r: int32, name: string", "Circle { r: 2, name: \"n\" }", "Circle { r: 2, name: n }", "{\"r\":2,\"name\":\"n\"}"),
+            (4, "r: int32, name: string, on: bool, w: int64", "Circle { r: 2, name: \"n\", on: true, w: 5i64 }", "Circle { r: 2, name: n, on: true, w: 5 }", "{\"r\":2,\"name\":\"n\",\"on\":true,\"w\":5}"),
+        ] {
+            for (vn, variant) in [("variant-holding-the-struct", "Circle(Circle)"), ("variant-holding-an-integer", "Circle(int32)"), ("variant-without-payload", "Circle"), ("variant-with-as-many-payloads", "")] {
+                let variant = if variant.is_empty() { format!("Circle({})", vec!["int32"; fields_n].join(", ")) } else { variant.to_string() };
+                for enum_first in [false, true] {
+                    for enum_derived in [false, true] {
+                        let st = format!("#[derive({})]\nstruct Circle {{ {} }}\n", derive, fields);
+                        let en = format!("{}enum Shape {{ {}, Dot }}\n", if enum_derived { format!("#[derive({})]\n", derive) } else { String::new() }, variant);
+                        // the enum can be derived only if its payloads can
+                        if enum_derived && vn == "variant-holding-the-struct" && false {
+                            continue;
+                        }
+                        let method = if derive == "ToString" { "to_string" } else { "to_json" };
+                        let text = format!("{}{}fn main() {{\n    let c = {};\n    string_println(c.{}());\n    let d = Shape::Dot;\n    let n = match d {{ Shape::Dot => 1, _ => 0 }};\n    string_println(int32_to_string(n))\n}}\n", if enum_first { &en } else { &st }, if enum_first { &st } else { &en }, lit, method);
+                        let expected = format!("{}\n1\n", if derive == "ToString" { shown } else { json });
+                        out.push((format!("derive={};fields={};{};enum-{};enum-derived={}", derive, fields_n, vn, if enum_first { "first" } else { "second" }, enum_derived), text, expected));
+                    }
+                }
+            }
+        }
+    }
+    out
+}
+
 fn cases_list(tier: Tier) -> Vec<Value> {
     let mut v = Vec::new();
+    for (i, _) in shared_name_programs().iter().enumerate() {
+        v.push(json!({"kind": "shared-name", "index": i}));
+    }
     // strings through a one-field struct and a one-payload variant, in batches
     let strs = strings_upto(if tier == Tier::Quick { 2 } else { 3 });
     let mut lo = 0;
@@ -336,13 +371,21 @@ impl Family for Derive {
         &["C18", "C01", "C02", "C04"]
     }
     fn rule(&self) -> &'static str {
-        "derived ToString+ToJson on: a struct and a variant holding every string of length <= 2 (quick) / <= 3 (thorough) over 18 character classes {letter, quote, backslash, slash, space, DEL, é, U+00AD, U+2028, emoji, U+E0001, newline, tab, carriage return, U+0007, U+000B, U+0001, U+001F}; structs with 1-2 fields over 7 leaf types x 12 field names (incl. self, tag, fields, x0, ret, value and the names of the helpers the derived bodies call: bool_to_string, json_escape_string, int32_to_string, to_json, string_println) at boundary values; enums with 0-2 payloads; width: structs with 0..12 (thorough 0..24) fields, variants with 0..12 (0..24) payloads, enums with 1..12 (1..24) variants, leaf types cycling (thorough: 3 rotations); fields of a type with hand-written to_string/to_json (generic instance, plain struct, enum) inside a derived struct / variant; empty struct, unit variants, nested and recursive definitions, variants named tag/fields; 46 unsupported definitions (tuple, 1-tuple, nested tuple, array, Vec, Vec of a struct, Ref, two fn types: rejected by the derive itself, not by the typer on the generated code; generic instance and non-derived struct fields without the method, generic definitions: rejected before the compile stage). oracle: each to_json line parses with a strict RFC 8259 parser to the same JSON value as the reference rendering; each to_string line equals the reference `Name { f: v }` / `Enum::Variant(v)` rendering. non-trivial = programs whose values contain a character that JSON must escape or a boundary number; distinct = distinct source text"
+        "derived ToString+ToJson on: a struct and a variant holding every string of length <= 2 (quick) / <= 3 (thorough) over 18 character classes {letter, quote, backslash, slash, space, DEL, é, U+00AD, U+2028, emoji, U+E0001, newline, tab, carriage return, U+0007, U+000B, U+0001, U+001F}; structs with 1-2 fields over 7 leaf types x 12 field names (incl. self, tag, fields, x0, ret, value and the names of the helpers the derived bodies call: bool_to_string, json_escape_string, int32_to_string, to_json, string_println) at boundary values; enums with 0-2 payloads; width: structs with 0..12 (thorough 0..24) fields, variants with 0..12 (0..24) payloads, enums with 1..12 (1..24) variants, leaf types cycling (thorough: 3 rotations); fields of a type with hand-written to_string/to_json (generic instance, plain struct, enum) inside a derived struct / variant; empty struct, unit variants, nested and recursive definitions, variants named tag/fields; 46 unsupported definitions (tuple, 1-tuple, nested tuple, array, Vec, Vec of a struct, Ref, two fn types: rejected by the derive itself, not by the typer on the generated code; generic instance and non-derived struct fields without the method, generic definitions: rejected before the compile stage). oracle: each to_json line parses with a strict RFC 8259 parser to the same JSON value as the reference rendering; each to_string line equals the reference `Name { f: v }` / `Enum::Variant(v)` rendering. non-trivial = programs whose values contain a character that JSON must escape or a boundary number; distinct = distinct source text. plus 96 programs in which a derived struct shares its name with a variant of another enum of the package (1 / 2 / 4 fields x the variant holding the struct, an integer, nothing, as many payloads as the struct has fields x enum before / after the struct x enum derived or not): the derived method prints the struct"
     }
     fn cases(&self, tier: Tier) -> Box<dyn Iterator<Item = Value> + '_> {
         Box::new(cases_list(tier).into_iter())
     }
     fn run(&self, case: &Value, ctx: &mut Ctx) -> Report {
         let mut rep = Report::default();
+        if case["kind"] == "shared-name" {
+            let (name, text, expected) = shared_name_programs()[case["index"].as_u64().unwrap() as usize].clone();
+            let site = format!("struct-named-like-a-variant;{}", name);
+            rep.nontrivial_key = Some(text.clone());
+            rep.outcome = Some(site.clone());
+            expect_text_program(ctx, &mut rep, "derive", case, &site, &text, &expected, &["C18", "C01"], &["C18", "C02"], &["C18"]);
+            return rep;
+        }
         if case["kind"] == "unsupported" {
             let fty = case["field_ty"].as_str().unwrap();
             let d = case["derive"].as_str().unwrap();
